@@ -694,6 +694,7 @@ func (p *Printer) wordPart(wp, next WordPart) {
 			switch {
 			case len(name) > 1 && !ValidName(name): // ${10}
 			case ValidName(name + litCont): // ${var}cont
+			case litCont == "[": // ${var}[x] is not $var[x] in zsh
 			default:
 				x2 := *wp
 				x2.Short = true
